@@ -54,10 +54,28 @@ def classes():
             @classmethod
             def render_db(cls, db):
                 return 'TAGDBML:db:' + '|'.join(cls.render(t) for t in db.tables)
-        for C, tag in ((TagSQL, 'TAGSQL'), (TagDBML, 'TAGDBML')):
+        # the same partial renderers written as SUBCLASSES OF THE DEFAULT ONES with a handler table of their own (what is
+        # inherited must not leak: neither handlers nor anything a renderer class remembers)
+        from pydbml.renderer.sql.default import DefaultSQLRenderer
+        from pydbml.renderer.dbml.default import DefaultDBMLRenderer
+
+        class DerivedSQL(DefaultSQLRenderer):
+            model_renderers = {}
+
+            @classmethod
+            def render_db(cls, db):
+                return 'TAGSQL:db:' + '|'.join(cls.render(t) for t in db.tables)
+
+        class DerivedDBML(DefaultDBMLRenderer):
+            model_renderers = {}
+
+            @classmethod
+            def render_db(cls, db):
+                return 'TAGDBML:db:' + '|'.join(cls.render(t) for t in db.tables)
+        for C, tag in ((TagSQL, 'TAGSQL'), (TagDBML, 'TAGDBML'), (DerivedSQL, 'TAGSQL'), (DerivedDBML, 'TAGDBML')):
             C.renderer_for(Table)(lambda m, tag=tag: '%s:Table:%s.%s' % (tag, m.schema, m.name))
             C.renderer_for(Enum)(lambda m, tag=tag: '%s:Enum:%s.%s' % (tag, m.schema, m.name))
-        _CLASSES = (TagSQL, TagDBML)
+        _CLASSES = ((TagSQL, TagDBML), (DerivedSQL, DerivedDBML))
     return _CLASSES
 
 
@@ -66,10 +84,10 @@ def _exec_chunk(items):
     from pydbml.renderer.sql.default import DefaultSQLRenderer
     from pydbml.renderer.dbml.default import DefaultDBMLRenderer
     from . import project as pj, builder
-    TagSQL, TagDBML = classes()
     out = []
     for it in items:
         cfg = it['cfg']
+        TagSQL, TagDBML = classes()[it['tid'] % 2]        # alternately derived from BaseRenderer and from the default renderers
         kw = {'sql_renderer': TagSQL if cfg['sql'] == 'custom' else DefaultSQLRenderer,
               'dbml_renderer': TagDBML if cfg['dbml'] == 'custom' else DefaultDBMLRenderer}
         if it['route'] == 'built':
